@@ -157,6 +157,7 @@ func c09WriteTo(c *Ctx) {
 		}
 	}
 	c.Floor("writeto writes", n, 2, "spaces and token bytes")
+	paddingBounded(c, "writeto")
 	// the spaces buffer holds only ' '
 	okSpaces := false
 	for _, b := range wt.Blocks {
@@ -486,4 +487,128 @@ func isFreshByteBuf(v ssa.Value) bool {
 		return false
 	}
 	return false
+}
+
+// boundedByLen: h <= len(buf) on every path reaching block at.
+func boundedByLen(h, buf ssa.Value, at *ssa.BasicBlock, depth int) bool {
+	if depth > 6 {
+		return false
+	}
+	isLen := func(v ssa.Value) bool {
+		call, ok := v.(*ssa.Call)
+		if !ok {
+			return false
+		}
+		bi, ok := call.Call.Value.(*ssa.Builtin)
+		return ok && bi.Name() == "len" && (call.Call.Args[0] == buf || sameValue(call.Call.Args[0], buf))
+	}
+	if isLen(h) {
+		return true
+	}
+	if n, ok := constInt(h); ok {
+		// the buffer's size when it is a constant
+		if mk, ok := buf.(*ssa.MakeSlice); ok {
+			if sz, ok := constInt(mk.Len); ok {
+				return n <= sz
+			}
+		}
+		if al, ok := buf.(*ssa.Slice); ok {
+			if a, ok := al.X.(*ssa.Alloc); ok {
+				if arr, ok := a.Type().(*types.Pointer).Elem().Underlying().(*types.Array); ok {
+					return n <= arr.Len()
+				}
+			}
+		}
+		return n == 0
+	}
+	// a test "h <= len(buf)" that holds on the way to block b through edge (p -> b)
+	edgeHolds := func(v ssa.Value, p, to *ssa.BasicBlock) bool {
+		check := func(blk, succ *ssa.BasicBlock) bool {
+			iff, ok := lastIf(blk)
+			if !ok {
+				return false
+			}
+			bo, ok := iff.Cond.(*ssa.BinOp)
+			if !ok {
+				return false
+			}
+			var leOnTrue, known bool
+			switch {
+			case bo.X == v && isLen(bo.Y):
+				switch bo.Op {
+				case token.GTR:
+					leOnTrue, known = false, true
+				case token.LEQ, token.LSS:
+					leOnTrue, known = true, true
+				}
+			case bo.Y == v && isLen(bo.X):
+				switch bo.Op {
+				case token.LSS:
+					leOnTrue, known = false, true
+				case token.GEQ, token.GTR:
+					leOnTrue, known = true, true
+				}
+			}
+			if !known || blk.Succs[0] == blk.Succs[1] {
+				return false
+			}
+			if leOnTrue {
+				return blk.Succs[0] == succ
+			}
+			return blk.Succs[1] == succ
+		}
+		if check(p, to) {
+			return true
+		}
+		for d := p; d != nil && d.Idom() != nil; d = d.Idom() {
+			if len(d.Preds) == 1 && check(d.Idom(), d) {
+				return true
+			}
+		}
+		return false
+	}
+	if phi, ok := h.(*ssa.Phi); ok {
+		for i, e := range phi.Edges {
+			if boundedByLen(e, buf, phi.Block().Preds[i], depth+1) || edgeHolds(e, phi.Block().Preds[i], phi.Block()) {
+				continue
+			}
+			return false
+		}
+		return len(phi.Edges) > 0
+	}
+	// dominated by a test on h itself
+	for d := at; d != nil && d.Idom() != nil; d = d.Idom() {
+		if len(d.Preds) == 1 && edgeHolds(h, d.Idom(), d) {
+			return true
+		}
+	}
+	return false
+}
+
+// paddingBounded: every slice of WriteTo's fixed-size padding buffer is bounded by its length.
+func paddingBounded(c *Ctx, rule string) {
+	wt := c.P.LookupFunc("hclwrite", "Tokens.WriteTo")
+	if wt == nil {
+		c.CheckerFail(rule, "anchor Tokens.WriteTo does not resolve")
+		return
+	}
+	c.Fn(FuncName(wt))
+	// every slice of the fixed-size padding buffer is bounded by its length
+	nb := 0
+	for _, b := range wt.Blocks {
+		for _, ins := range b.Instrs {
+			sl, ok := ins.(*ssa.Slice)
+			if !ok || sl.High == nil || !(isFreshByteBuf(sl.X) || repeatedSpaces(sl.X)) {
+				continue
+			}
+			if _, isArr := sl.X.Type().Underlying().(*types.Pointer); isArr {
+				continue // make([]byte, N) itself
+			}
+			nb++
+			c.Sites++
+			c.Check(boundedByLen(sl.High, sl.X, b, 0), rule, FuncName(wt)+":slice[padding]", sl.Pos(), "upper bound clamped to the buffer's length",
+				"the padding buffer is sliced with an upper bound that is not clamped to its length: a token preceded by more spaces than the buffer holds makes WriteTo panic (slice bounds out of range)")
+		}
+	}
+	c.Floor(rule+" padding slices", nb, 1, "spaces[:thisChunk]")
 }
